@@ -152,6 +152,9 @@ func dischargeAll(obs []*Obligation, workdir string, tlim int, par int, only str
 			defer func() { <-sem }()
 			q := ob.Query()
 			tl, on := tlim, only
+			if ob.ShortLimit {
+				tl = 3
+			}
 			if ob.ExpectSat {
 				tl = 3
 				if on == "" {
